@@ -351,6 +351,49 @@ TWatchEnd ==
           ELSE IF Ev.res = "error" /\ L # {} THEN Reject(st, "the game loop stopped with an error although a legal move exists", Ev.msg, "none")
           ELSE same
 
+\* one move of a game against the external engine (`chess determine-stockfish-elo`, the external
+\* engine being a stand-in process that speaks its protocol).  Ev.by = "engine": the move was chosen
+\* by the engine and Ev.u is the coordinate string under which it was sent to the other side in the
+\* next "position startpos moves .." command ("" when the game ended before another command).
+\* Ev.by = "stockfish": Ev.u is the reply read back from the other side; the move played must be the
+\* legal move that string names and the board its successor.  Deliberate deviation of the code, modelled
+\* as it is: the move reconstructed from a reply carries no check annotation, so it compares unequal to
+\* every enumerated legal move and the loop prints "-" instead of its notation; any OTHER printed
+\* notation must be that move's.
+TBridge ==
+  /\ Ev.ev = "Bridge" /\ mode = "ok"
+  /\ \E p \in {Abs(st)} : \E L \in {Legal(p)} :
+     \E MU \in {{ m \in L : UCI(m) = Ev.u }} : \E ML \in {LabelMatch(p, L, Ev.last)} :
+       IF Ev.mover # st.turn THEN Reject(st, "the game loop did not alternate the side to move", [printed |-> Ev.mover, expected |-> st.turn], "none")
+       ELSE IF Ev.by = "stockfish"
+       THEN IF MU = {} THEN OutOfScope("the stand-in replied with a string naming no legal move")
+            ELSE \E m \in {CHOOSE m \in MU : TRUE} : \E s \in {GamePlay(st, m)} :
+                 IF s.b # Ev.b THEN Broken("the reply read back from the external engine was not played as the move it names", [u |-> Ev.u, last |-> Ev.last])
+                 ELSE IF Ev.last # "-" /\ m \notin ML THEN Reject(GameToggle(s), "the move reconstructed from the external engine's reply is not the legal move it names", [u |-> Ev.u, printed |-> Ev.last, want |-> SAN(p, m, L)], "none")
+                 ELSE IF Ev.hm # Last(s.hmS) THEN Reject(GameToggle(s), "printed half-move clock differs", <<Ev.hm, Last(s.hmS)>>, "none")
+                 ELSE st' = GameToggle(s) /\ keyS' = keyS /\ mode' = "ok" /\ Advance
+       ELSE \E hits \in {{ m \in ML : GamePlay(st, m).b = Ev.b }} :
+            IF ML = {} THEN Broken("the engine played something that is not the printed legal move", [last |-> Ev.last])
+            ELSE IF hits = {} THEN Broken("the board after the engine's move is not the successor of the printed move", [last |-> Ev.last])
+            ELSE \E m \in {CHOOSE m \in hits : TRUE} : \E s \in {GamePlay(st, m)} :
+                 IF Ev.u # "" /\ UCI(m) # Ev.u
+                 THEN Reject(GameToggle(s), "the engine's move was sent to the external engine under a different coordinate string", [sent |-> Ev.u, want |-> UCI(m)], "none")
+                 ELSE st' = GameToggle(s) /\ keyS' = keyS /\ mode' = "ok" /\ Advance
+
+\* the result booked for a finished game against the external engine (Ev.engine: the engine's colour)
+TBridgeEnd ==
+  /\ Ev.ev = "BridgeEnd" /\ mode = "ok"
+  /\ \E p \in {Abs(st)} : \E L \in {Legal(p)} :
+       LET v == Verdict(p, L)
+           drawn == Last(st.hmS) >= DrawThreshold \/ Occurred(st) >= 3
+           want == IF v = "checkmate" /\ ~drawn THEN (IF st.turn = Ev.engine THEN "loss" ELSE "win")
+                   ELSE IF v = "stalemate" \/ drawn THEN "draw" ELSE "unfinished"
+           same == st' = st /\ keyS' = keyS /\ mode' = "ok" /\ Advance
+       IN IF want = "unfinished" THEN Reject(st, "a game against the external engine was booked although it was not over", [res |-> Ev.res, hm |-> Last(st.hmS), occurred |-> Occurred(st)], "none")
+          ELSE IF v = "checkmate" /\ drawn THEN same      \* mate on a drawn position: either booking is defensible
+          ELSE IF Ev.res # want THEN Reject(st, "the result booked for a game against the external engine does not follow from its final position", [res |-> Ev.res, want |-> want], "none")
+          ELSE same
+
 TGEnding ==
   /\ Ev.ev = "GEnding" /\ mode = "ok"
   /\ \E p \in {Abs(st)} : \E L \in {Legal(p)} :
@@ -367,7 +410,7 @@ TGEnding ==
 
 Init == l = 2 /\ st = EmptyEngine /\ keyS = << >> /\ mode = "skip"
 Next == l <= NRec /\ (TReset \/ TSkipped \/ TApply \/ TUndo \/ TToggle \/ TCount \/ TUncount \/ TQuery \/ TEnding
-                       \/ TGReset \/ TGToggle \/ TCoordBatch \/ TCoord \/ TLabelBatch \/ TLabel \/ TEngineMove \/ TGEnding \/ TBookEdges \/ TSearch \/ TCli \/ TCliReset \/ TWatch \/ TWatchEnd
+                       \/ TGReset \/ TGToggle \/ TCoordBatch \/ TCoord \/ TLabelBatch \/ TLabel \/ TEngineMove \/ TGEnding \/ TBookEdges \/ TSearch \/ TCli \/ TCliReset \/ TWatch \/ TWatchEnd \/ TBridge \/ TBridgeEnd
                        \/ TEReset \/ TPut \/ TRemove \/ TLoseRights \/ TPushEp \/ TPopEp)
 Spec == Init /\ [][Next]_vars
 
